@@ -292,3 +292,269 @@ Theorem C03_bin_constants_match_source :
 Proof. exact bin_constants_match_source. Qed.
 Theorem C03_rotation_table_matches_source : resolve_rotations = Some Rotation.rotation_table.
 Proof. exact rotation_table_matches_source. Qed.
+
+(* ==== THE DOCUMENT DECODER ACCEPTS EVERY FILE THE SERIALIZER MODEL WRITES AND RECOVERS THE DOM (Proofs/BinSpecAgree.v), for arbitrary DOMs.
+   Method: the serializer model's bytes ARE the document encoder's bytes for a spec-side description (spec_file) of the serializer state, under the
+   amended reading of docs/binary.md; acceptance then follows from the document codec's own round trip.
+     columns  for 30 of the 31 wire types the column the model writes is read by bs_dec_col to the column describing the values, consuming exactly
+              those bytes (all but SharedString / UniqueId / Content under ANY reading of the document, the literal one included);
+     chunks   INST, PROP, PRNT, SSTR, END and the whole chunk list = bspec_encode_chunks of spec_file;
+     file     bspec_decode (encode_file ..) = Ok spec_file for no compression, for LZ4/Zstd under decompress(compress x) = x, and for LZ4 literal
+              blocks with no inflater hypothesis at all;
+     DOM      bspec_to_dom spec_file = one node per written instance in PRNT order with the instance's class, name, parent label, child lists in
+              sibling order, and per property the document's reading of the written value: exact for 24 types, up to the reader's normal form for
+              CFrame rotations and Font, up to wire type for blobs in String columns, referents relabelled.
+   Found false (document or serializer defects, recorded as doc-* findings): type 0x21 is written but undocumented (the property is lost to a
+   decoder written from the document); the literal reading fails on UniqueId, SharedString indices and Content source types; the SSTR hash field is
+   sixteen zero bytes.  Range hypotheses (values are real Rust values) are model artefacts, shown necessary. *)
+From RbxVerif Require Import Db CodecDom BinValues BinFile BinPostorder BinStructure BinSpecAgree.
+From RbxVerif Require BinRoundTrip.
+
+Theorem C03_enc_col_spec :
+  forall (ty : wire_type) (c : enc_ctx) (vs : list value) (b : bytes),
+       enc_col ty c vs = Ok b ->
+       ty <> WSecurityCapabilities ->
+       exists col : bs_column,
+         spec_col ty c vs = Some col /\ (bs_col_ok col = true -> b = bs_enc_col rdA true col).
+Proof. exact enc_col_spec. Qed.
+
+Theorem C03_spec_reads_model_column :
+  forall (ty : wire_type) (c : enc_ctx) (vs : list value) (b : bytes) (col : bs_column) (rest : list N),
+       enc_col ty c vs = Ok b ->
+       spec_col ty c vs = Some col ->
+       bs_col_ok col = true -> bs_dec_col rdA (wire_id ty) (Datatypes.length vs) (b ++ rest) = Ok (col, rest).
+Proof. exact spec_reads_model_column. Qed.
+
+Theorem C03_spec_reads_model_column_total :
+  forall (ty : wire_type) (c : enc_ctx) (vs : list value) (col : bs_column),
+       spec_col ty c vs = Some col ->
+       bs_col_ok col = true ->
+       exists b : bytes,
+         enc_col ty c vs = Ok b /\
+         (forall rest : list N,
+          bs_dec_col rdA (wire_id ty) (Datatypes.length vs) (b ++ rest) = Ok (col, rest)).
+Proof. exact spec_reads_model_column_total. Qed.
+
+Theorem C03_spec_reads_model_column_any_reading :
+  forall (rd : bs_reading) (ty : wire_type) (c : enc_ctx) (vs : list value) 
+         (b : bytes) (col : bs_column) (rest : list N),
+       enc_col ty c vs = Ok b ->
+       spec_col ty c vs = Some col ->
+       bs_col_ok col = true ->
+       ty <> WSharedString ->
+       ty <> WUniqueId ->
+       ty <> WContent -> bs_dec_col rd (wire_id ty) (Datatypes.length vs) (b ++ rest) = Ok (col, rest).
+Proof. exact spec_reads_model_column_any_reading. Qed.
+
+Theorem C03_spec_reads_model_chunks :
+  forall (d : db) (ep : enc_params) (dom : cdom) (roots : list N) (e : encoded) (st : ser_state),
+       encode_chunks d ep dom roots = Ok e ->
+       add_instances d ep dom roots = Ok st ->
+       bs_wf (spec_file ep dom st) = true ->
+       bs_parse_items rdA [] (en_chunks e ++ [(CH_END, FILE_FOOTER)]) =
+       Ok
+         (BinSpecFacts.sstr_items (spec_file ep dom st) ++
+          List.map IInst (List.map (spec_class st) (ss_types st)) ++
+          List.map IProp (List.map (spec_prop ep dom st) (BinRoundTrip.cols (ss_types st))) ++
+          [IPrnt (spec_prnt dom st); IEnd]).
+Proof. exact spec_reads_model_chunks. Qed.
+
+Theorem C03_model_chunks_are_spec_chunks :
+  forall (d : db) (ep : enc_params) (dom : cdom) (roots : list N) (e : encoded) 
+         (st : ser_state) (comp : list bool),
+       encode_chunks d ep dom roots = Ok e ->
+       add_instances d ep dom roots = Ok st ->
+       cols_ok ep dom st ->
+       en_chunks e ++ [(CH_END, FILE_FOOTER)] =
+       bspec_encode_chunks rdA (model_choices comp (spec_file ep dom st)) (spec_file ep dom st).
+Proof. exact model_chunks_are_spec_chunks. Qed.
+
+Theorem C03_spec_accepts_model_file :
+  forall (d : db) (ep : enc_params) (dom : cdom) (roots : list N) (b : bytes) (st : ser_state),
+       encode_file d ep None dom roots = Ok b ->
+       add_instances d ep dom roots = Ok st ->
+       bs_wf (spec_file ep dom st) = true ->
+       (forall e : encoded,
+        encode_chunks d ep dom roots = Ok e ->
+        Forall (fun c : bytes * list N => N.of_nat (Datatypes.length (snd c)) < 2 ^ 32) (en_chunks e)) ->
+       bspec_decode rdA b = Ok (spec_file ep dom st).
+Proof. exact spec_accepts_model_file. Qed.
+
+Theorem C03_spec_accepts_model_file_gen :
+  forall (d : db) (ep : enc_params) (cmp : compression) (zstd : bytes -> option bytes) 
+         (dom : cdom) (roots : list N) (b : bytes) (st : ser_state),
+       encode_file d ep cmp dom roots = Ok b ->
+       add_instances d ep dom roots = Ok st ->
+       bs_wf (spec_file ep dom st) = true ->
+       (forall e : encoded,
+        encode_chunks d ep dom roots = Ok e ->
+        Forall (fun c : bytes * bytes => BinFraming.sizes_ok cmp (snd c)) (en_chunks e)) ->
+       cmp_law zstd cmp -> bspec_decode_gen rdA zstd b = Ok (spec_file ep dom st).
+Proof. exact spec_accepts_model_file_gen. Qed.
+
+Theorem C03_spec_accepts_model_file_lz4_literal :
+  forall (d : db) (ep : enc_params) (dom : cdom) (roots : list N) (b : bytes) (st : ser_state),
+       encode_file d ep (Some literal_only_block) dom roots = Ok b ->
+       add_instances d ep dom roots = Ok st ->
+       bs_wf (spec_file ep dom st) = true ->
+       (forall e : encoded,
+        encode_chunks d ep dom roots = Ok e ->
+        Forall (fun c : bytes * bytes => BinFraming.sizes_ok (Some literal_only_block) (snd c)) (en_chunks e)) ->
+       bspec_decode rdA b = Ok (spec_file ep dom st).
+Proof. exact spec_accepts_model_file_lz4_literal. Qed.
+
+Theorem C03_model_file_is_spec_file :
+  forall (d : db) (ep : enc_params) (dom : cdom) (roots : list N) (b : bytes) (st : ser_state),
+       encode_file d ep None dom roots = Ok b ->
+       add_instances d ep dom roots = Ok st ->
+       cols_ok ep dom st ->
+       b = bspec_encode rdA (model_choices [] (spec_file ep dom st)) (spec_file ep dom st).
+Proof. exact model_file_is_spec_file. Qed.
+
+Theorem C03_spec_file_wf :
+  forall (d : db) (ep : enc_params) (dom : cdom) (roots : list N) (e : encoded) (st : ser_state),
+       encode_chunks d ep dom roots = Ok e ->
+       add_instances d ep dom roots = Ok st -> wire_ranges_ok ep dom st -> bs_wf (spec_file ep dom st) = true.
+Proof. exact spec_file_wf. Qed.
+
+Theorem C03_spec_recovers_model_dom :
+  forall (d : db) (ep : enc_params) (dom : cdom) (ts : list tree) (e : encoded) (st : ser_state),
+       BinRoundTrip.input_ok dom ts ->
+       BinRoundTrip.name_cols_ok st ->
+       encode_chunks d ep dom (List.map root ts) = Ok e ->
+       add_instances d ep dom (List.map root ts) = Ok st ->
+       exists nodes : list bs_node,
+         bspec_to_dom (spec_file ep dom st) = Ok nodes /\
+         ss_relevant st = flat_map post ts /\
+         NoDup (ss_relevant st) /\
+         Forall2
+           (fun (r : N) (nd : bs_node) =>
+            bn_label nd = L st r /\
+            bn_class nd = i_class (BinRoundTrip.src dom r) /\
+            bn_name nd = i_name (BinRoundTrip.src dom r) /\
+            bn_parent nd = r_parent dom st r /\
+            (exists (ti : type_info) (j : nat),
+               In (i_class (BinRoundTrip.src dom r), ti) (ss_types st) /\
+               nth_error (ti_instances ti) j = Some r /\
+               bn_props nd =
+               filter (fun kv : bytes * value => negb (is_name_cell kv))
+                 (flat_map (cell ep dom st (i_class (BinRoundTrip.src dom r), ti) j) (ti_props ti)))) 
+           (ss_relevant st) nodes /\
+         (forall t : tree, In t ts -> r_parent dom st (root t) = 0) /\
+         (forall r c : N, In r (flat_map refs ts) -> In c (children_of dom r) -> r_parent dom st c = L st r).
+Proof. exact spec_recovers_model_dom. Qed.
+
+Theorem C03_spec_recovers_child_lists :
+  forall (d : db) (ep : enc_params) (dom : cdom) (ts : list tree) (e : encoded) (st : ser_state),
+       BinRoundTrip.input_ok dom ts ->
+       encode_chunks d ep dom (List.map root ts) = Ok e ->
+       add_instances d ep dom (List.map root ts) = Ok st ->
+       exists nodes : list bs_node,
+         bspec_to_dom (spec_file ep dom st) = Ok nodes /\
+         List.map bn_label nodes = List.map (L st) (flat_map post ts) /\
+         nodes_children nodes 0 = List.map (L st) (List.map root ts) /\
+         (forall r : N,
+          In r (flat_map refs ts) -> nodes_children nodes (L st r) = List.map (L st) (children_of dom r)).
+Proof. exact spec_recovers_child_lists. Qed.
+
+Theorem C03_spec_row_values :
+  forall (d : db) (ep : enc_params) (dom : cdom) (roots : list N) (e : encoded) 
+         (st : ser_state) (c : bytes) (ti : type_info) (cp : bytes * prop_info) (j : nat) 
+         (r : N),
+       encode_chunks d ep dom roots = Ok e ->
+       add_instances d ep dom roots = Ok st ->
+       In (c, ti) (ss_types st) ->
+       In cp (ti_props ti) ->
+       nth_error (ti_instances ti) j = Some r ->
+       let v := prop_value ep (fst cp) (snd cp) (ep_order ep (pi_aliases (snd cp))) (BinRoundTrip.src dom r) in
+       if wire_type_eq_dec_seccap (pi_type (snd cp))
+       then cell ep dom st (c, ti) j cp = []
+       else
+        exists v' : value,
+          wire_dom_value (st_sstr st) (st_label st) (pi_type (snd cp)) (enc_ctx_of ep st) v = Some v' /\
+          cell ep dom st (c, ti) j cp = [(pi_ser_name (snd cp), v')].
+Proof. exact spec_row_values. Qed.
+
+Theorem C03_spec_accepts_and_recovers :
+  forall (d : db) (ep : enc_params) (dom : cdom) (ts : list tree) (b : bytes),
+       BinRoundTrip.input_ok dom ts ->
+       encode_file d ep None dom (List.map root ts) = Ok b ->
+       exists (st : ser_state) (e : encoded),
+         add_instances d ep dom (List.map root ts) = Ok st /\
+         encode_chunks d ep dom (List.map root ts) = Ok e /\
+         (wire_ranges_ok ep dom st ->
+          Forall (fun c : bytes * list N => N.of_nat (Datatypes.length (snd c)) < 2 ^ 32) (en_chunks e) ->
+          BinRoundTrip.name_cols_ok st ->
+          exists nodes : list bs_node,
+            bspec_decode rdA b = Ok (spec_file ep dom st) /\
+            bspec_to_dom (spec_file ep dom st) = Ok nodes /\
+            ss_relevant st = flat_map post ts /\
+            Forall2
+              (fun (r : N) (nd : bs_node) =>
+               bn_label nd = L st r /\
+               bn_class nd = i_class (BinRoundTrip.src dom r) /\
+               bn_name nd = i_name (BinRoundTrip.src dom r) /\
+               bn_parent nd = r_parent dom st r /\
+               (exists (ti : type_info) (j : nat),
+                  In (i_class (BinRoundTrip.src dom r), ti) (ss_types st) /\
+                  nth_error (ti_instances ti) j = Some r /\
+                  bn_props nd =
+                  filter (fun kv : bytes * value => negb (is_name_cell kv))
+                    (flat_map (cell ep dom st (i_class (BinRoundTrip.src dom r), ti) j) (ti_props ti)))) 
+              (ss_relevant st) nodes /\
+            (forall t : tree, In t ts -> r_parent dom st (root t) = 0) /\
+            (forall r c : N,
+             In r (flat_map refs ts) -> In c (children_of dom r) -> r_parent dom st c = L st r) /\
+            nodes_children nodes 0 = List.map (L st) (List.map root ts) /\
+            (forall r : N,
+             In r (flat_map refs ts) -> nodes_children nodes (L st r) = List.map (L st) (children_of dom r))).
+Proof. exact spec_accepts_and_recovers. Qed.
+
+Theorem C03_seccap_column_refuted :
+  enc_col WSecurityCapabilities BinValuesFacts.ectx0 [VSecurityCapabilities 5] =
+       Ok [0; 0; 0; 0; 0; 0; 0; 10] /\
+       bs_known_type (wire_id WSecurityCapabilities) = false /\
+       (forall (rd : bs_reading) (n : nat) (b : bytes),
+        bs_dec_col rd (wire_id WSecurityCapabilities) n b = Err BS_EOF) /\
+       (forall (c : enc_ctx) (vs : list value), spec_col WSecurityCapabilities c vs = None).
+Proof. exact seccap_column_refuted. Qed.
+
+Theorem C03_literal_reading_uniqueid_be_refuted :
+  exists b : bytes,
+         enc_col WUniqueId BinValuesFacts.ectx0 [VUniqueId 1 2 3] = Ok b /\
+         bs_dec_col rdA 31 1 b = Ok (KUniqueId [(1, 2, 3%Z)], []) /\
+         bs_dec_col
+           {| rd_sstr_be := true; rd_uid_be := false; rd_uid_rot := true; rd_content_types_i32 := true |} 31
+           1 b = Ok (KUniqueId [(16777216, 33554432, 216172782113783808%Z)], []).
+Proof. exact literal_reading_uniqueid_be_refuted. Qed.
+
+Theorem C03_literal_reading_sharedstring_refuted :
+  exists b : bytes,
+         enc_col WSharedString ectx1 [VSharedString [7]] = Ok b /\
+         bs_dec_col rdA 28 1 b = Ok (KSharedString [1], []) /\
+         bs_dec_col
+           {| rd_sstr_be := false; rd_uid_be := true; rd_uid_rot := true; rd_content_types_i32 := true |} 28
+           1 b = Ok (KSharedString [16777216], []).
+Proof. exact literal_reading_sharedstring_refuted. Qed.
+
+Theorem C03_literal_reading_content_refuted :
+  exists b : bytes,
+         enc_col WContent ectx1 [VContent (CUri [7])] = Ok b /\
+         bs_dec_col rdA 34 1 b = Ok (KContent [BCUri [7]] [], []) /\
+         bs_dec_col
+           {| rd_sstr_be := true; rd_uid_be := true; rd_uid_rot := true; rd_content_types_i32 := false |} 34
+           1 b = Err BS_CONTENT.
+Proof. exact literal_reading_content_refuted. Qed.
+
+Theorem C03_sstr_hash_field_is_zero :
+  forall (st : ser_state) (l : list (bytes * bytes)),
+       spec_sstr st = Some l -> Forall (fun t : bytes * bytes => fst t = zeros16) l.
+Proof. exact sstr_hash_field_is_zero. Qed.
+
+Theorem C03_float_range_needed :
+  exists b : bytes,
+         enc_col WFloat32 BinValuesFacts.ectx0 [VFloat32 4294967296] = Ok b /\
+         spec_col WFloat32 BinValuesFacts.ectx0 [VFloat32 4294967296] = Some (KFloat32 [4294967296]) /\
+         bs_col_ok (KFloat32 [4294967296]) = false /\ bs_dec_col rdA 4 1 b = Ok (KFloat32 [1], []).
+Proof. exact float_range_needed. Qed.
+
